@@ -87,6 +87,47 @@ def roundtrip(ctx, real, rec, data, sid, now_ns, mode, use_async, cases):
                                                         "time_ns": now_ns, "async": use_async, "real_crypto": real}, back[:80], "done " + hx(data)[:60])
 
 
+def several_sids(ctx, rec, real, cases):
+    """one producer cache serving several protection descriptors in a row; every blob must decrypt on a fresh cache and on a
+    cache that met the SIDs in the opposite order (key material of one descriptor must never leak into another's)"""
+    kw = {} if real else dict(kdf_factory=clientsim.toy_kdf_factory, public_key_fn=clientsim.toy_public_key)
+    now = (361, 9, 17)
+    sid_list = ["S-1-5-21-1-2-3-1103", "S-1-5-18", "S-1-5-21-1-2-3-1104"]
+    dc = refdc.KeyServer(now=now, **kw)
+    dc.add_root(rec)
+    prod = clientsim.Sim(dc, real_crypto=real)
+    prod.now_ns = clientsim.time_ns_for(*now)
+    blobs = []
+    with prod.world():
+        prod.load(rec)
+        for i, sid in enumerate(sid_list):
+            out = prod.protect(b"for " + sid.encode(), sid, rk=rec.id)
+            if not out.startswith("done "):
+                ctx.violation("protect fails for a supported configuration", {"hash": rec.hash_name, "alg": rec.secret_algorithm, "mode": "cache", "sid": sid, "len": 4, "time_ns": prod.now_ns}, out, "a blob")
+                return
+            blobs.append((sid, bytes.fromhex(out[5:])))
+        prod.dump()
+    if not real:
+        cases.append(prod.line())
+    for order in (blobs, blobs[::-1], blobs[1:] + blobs[:1]):
+        dc2 = refdc.KeyServer(now=now, **kw)
+        dc2.add_root(rec)
+        cons = clientsim.Sim(dc2, real_crypto=real)
+        with cons.world():
+            cons.load(rec)
+            for sid, blob in order:
+                back = cons.unprotect(blob)
+                ctx.count("several_sids_on_one_cache")
+                if back != "done " + hx(b"for " + sid.encode()):
+                    ctx.violation("a blob protected on a cache that served several SIDs does not decrypt elsewhere",
+                                  {"hash": rec.hash_name, "alg": rec.secret_algorithm, "producer_order": sid_list, "consumer_order": [x for x, _ in order], "sid": sid,
+                                   "real_crypto": real, "scenario": "several_sids"}, back[:60], "the plaintext")
+                    return
+            cons.dump()
+        if not real:
+            cases.append(cons.line())
+
+
 def run(ctx):
     prelude.validate(ctx)
     rng = ctx.rng
@@ -113,6 +154,8 @@ def run(ctx):
             now_ns = (((l0 * 32 + l1) * 32 + l2) * B + d - clientsim.EPOCH) * 100
             roundtrip(ctx, False, rec, b"boundary", "S-1-5-21-1-2-3-1103", now_ns, "cache", False, cases)
             ctx.count("clock:boundary")
+    for rec in (roots[0], roots[5], roots[10]):
+        several_sids(ctx, rec, False, cases)
     for n in lens:
         rec = rng.choice(roots)
         roundtrip(ctx, False, rec, toycrypto.stream(78, [n.to_bytes(4, "little")], n), "S-1-5-21-1-2-3-1103", clocks(rng, 1)[0], "cache", False, cases)
@@ -136,6 +179,13 @@ def search(ctx, broken, disagreements):
 def replay(ctx, payload):
     v = payload["violation"]["input"]
     print("recorded input:", v)
+    if v.get("scenario") == "several_sids":
+        rec = [r for r in clientsim.standard_roots(real=v.get("real_crypto", False)) if r.hash_name == v["hash"] and r.secret_algorithm == v["alg"]][0]
+        c2 = type(ctx)(ctx.prop, "quick", ctx.seed)
+        several_sids(c2, rec, v.get("real_crypto", False), [])
+        for x in c2.violations:
+            print(" ", x["what"], x["observed"])
+        return not c2.violations
     rec = [r for r in clientsim.standard_roots(real=v.get("real_crypto", False)) if r.hash_name == v["hash"] and r.secret_algorithm == v["alg"]][0]
     c2 = type(ctx)(ctx.prop, "quick", ctx.seed)
     n = v["len"]
